@@ -4,11 +4,55 @@ import (
 	"fmt"
 
 	"github.com/hack-pad/hackpadfs"
+	"github.com/hack-pad/hackpadfs/mount"
 )
 
 func init() {
-	commands["C05"] = func(r *Rng, n int, replay string) { runErr(r, n, newMemWorld) }
+	commands["C05"] = func(r *Rng, n int, replay string) {
+		runErr(r, n, "", true, newMemWorld)
+		// the same comparison through the composition layers (no model: C06/C07 carry those); Rename is left to C06/C07
+		k := n / 4
+		runErr(r, k, "sub2mem", false, func() (hackpadfs.FS, func()) {
+			base := newMem()
+			if err := hackpadfs.MkdirAll(base, "a/ab", 0o755); err != nil {
+				panic(err)
+			}
+			_ = hackpadfs.Chmod(base, "a/ab", 0o777)
+			sub, err := hackpadfs.Sub(base, "a/ab")
+			if err != nil {
+				panic(err)
+			}
+			return sub, func() {}
+		})
+		runErr(r, k, "mount", false, func() (hackpadfs.FS, func()) {
+			root, m1, m2 := newMem(), newMem(), newMem()
+			_ = hackpadfs.Mkdir(root, "a", 0o755)
+			_ = hackpadfs.MkdirAll(root, "ab/b", 0o755)
+			m, _ := mount.NewFS(root)
+			if err := m.AddMount("a", m1); err != nil {
+				panic(err)
+			}
+			if err := m.AddMount("ab/b", m2); err != nil {
+				panic(err)
+			}
+			return m, func() {}
+		})
+		runErr(r, k, "subos2", false, func() (hackpadfs.FS, func()) {
+			fs, done := newOSWorld()
+			if err := hackpadfs.MkdirAll(fs, "x/ab", 0o777); err != nil {
+				panic(err)
+			}
+			_ = hackpadfs.Chmod(fs, "x/ab", 0o777)
+			sub, err := hackpadfs.Sub(fs, "x/ab")
+			if err != nil {
+				panic(err)
+			}
+			return sub, done
+		})
+	}
 }
+
+var c05NextID int
 
 var sentinels = map[string]bool{"ENOENT": true, "EEXIST": true, "EISDIR": true, "ENOTDIR": true, "ENOTEMPTY": true, "EINVAL": true, "ECLOSED": true}
 
@@ -42,19 +86,37 @@ func errDiff(o Op, a, b *CErr) (string, string) {
 }
 
 // runErr: namespace histories biased to failing calls; every failing call's error is compared with os.
-func runErr(r *Rng, n int, mk func() (hackpadfs.FS, func())) {
+func runErr(r *Rng, n int, layer string, model bool, mk func() (hackpadfs.FS, func())) {
 	cands := candidatePaths(nsNames, nsDepth)
+	pre := ""
+	if layer != "" {
+		pre = layer + ":"
+	}
 	for id := 0; id < n; id++ {
 		ops := genNS(r, false)
 		implFS, implDone := mk()
 		refFS, refDone := newOSWorld()
+		if layer == "mount" {
+			// the flat reference has plain directories where the mount points are
+			_ = hackpadfs.Mkdir(refFS, "a", 0o755)
+			_ = hackpadfs.MkdirAll(refFS, "ab/b", 0o755)
+			_ = hackpadfs.Chmod(implFS, "a", 0o755)
+			_ = hackpadfs.Chmod(implFS, "ab/b", 0o755)
+		}
 		impl := &World{FS: implFS}
 		ref := &World{FS: refFS}
-		c := &Case{ID: id}
+		c := &Case{ID: c05NextID, Kind: layer}
+		c05NextID++
 		cells := map[string]bool{}
 		var items, opsC []string
 		diverged := false
 		for i, o := range ops {
+			if layer != "" && o.Kind == "rename" {
+				continue
+			}
+			if layer == "mount" && (o.Kind == "remove" || o.Kind == "removeall") && (o.P == "." || o.P == "a" || o.P == "ab" || o.P == "ab/b") {
+				continue // removing a mount point or a directory that holds one: C03's finding, C06's business
+			}
 			a := impl.Apply(o)
 			as := Snapshot(implFS, cands)
 			opsC = append(opsC, o.coq())
@@ -68,12 +130,12 @@ func runErr(r *Rng, n int, mk func() (hackpadfs.FS, func())) {
 			bs := Snapshot(refFS, cands)
 			if a.Kind == "err" && b.Kind == "err" {
 				if d, sig := errDiff(o, a.Err, b.Err); d != "" {
-					c.fail(fmt.Sprintf("step %d (%s): %s [impl: %s | os: %s]", i, o, d, a, b), o.Kind+":"+sig)
+					c.fail(fmt.Sprintf("%sstep %d (%s): %s [impl: %s | os: %s]", pre, i, o, d, a, b), pre+o.Kind+":"+sig)
 				}
 			} else if a.Kind == "err" {
 				// failing where os succeeds is C01's concern; the error must still be typed and name a path
 				if d, sig := errDiff(o, a.Err, a.Err); d != "" {
-					c.fail(fmt.Sprintf("step %d (%s): %s [impl: %s]", i, o, d, a), o.Kind+":"+sig)
+					c.fail(fmt.Sprintf("%sstep %d (%s): %s [impl: %s]", pre, i, o, d, a), pre+o.Kind+":"+sig)
 				}
 			}
 			if snapDiffOS(as, bs) != "" {
@@ -85,9 +147,11 @@ func runErr(r *Rng, n int, mk func() (hackpadfs.FS, func())) {
 		implDone()
 		refDone()
 		for k := range cells {
-			c.Cells = append(c.Cells, k)
+			c.Cells = append(c.Cells, pre+k)
 		}
-		c.Coq = cPair(cList(opsC), cList(items))
+		if model {
+			c.Coq = cPair(cList(opsC), cList(items))
+		}
 		emit(c)
 	}
 }
